@@ -11,7 +11,8 @@ from harness import calib, gen, models
 from harness.common import Ctx, drive, guard, watchdog
 
 RULE = ("Hypothesis draws (a) a round-robin line-up of 1-6 cheap samplers and a history of calibrate(n) / checkpoint-restore "
-        "operations (and batches whose simulation fails and is therefore not recorded), (b) an RL scheduler over 2-4 samplers (Halton present or absent) with a scripted or epsilon-greedy agent "
+        "operations (and batches whose simulation fails and is therefore not recorded, set_samplers with a line-up of another "
+        "length, the caller editing the list it passed), (b) an RL scheduler over 2-4 samplers (Halton present or absent) with a scripted or epsilon-greedy agent "
         "and 1-3 calibrate(n) sessions, (c) the four samplers/scheduler constructor-argument combinations. BaseSampler.sample is "
         "wrapped at class level (survives restore) to log which object produced each batch. Non-trivial = >= 2 calibrate calls "
         "or a restore, with a total batch count that is not a multiple of the line-up length (a) / >= 3 batches (b).")
